@@ -132,7 +132,7 @@ func c02Check(c C02Case, rec *evid.Rec) error {
 	want := c.V.SortKeys(val.LessLenFirst)
 	for _, target := range []nodes.Impl{nodes.BasicAny, impl} {
 		nb := nodes.ProtoFor(target, c.V.K).NewBuilder()
-		if err := evid.Guard("dagcbor.Decode", func() error { return dagcbor.Decode(nb, bytes.NewReader(enc)) }); err != nil {
+		if err := evid.Guard("dagcbor.Decode", func() error { return dagcbor.Decode(nb, c03Reader(enc)) }); err != nil {
 			return fmt.Errorf("dagcbor.Decode into %s of canonical bytes %s failed: %w", target, clip(enc), err)
 		}
 		got, err := nodes.Full.Read(nb.Build())
